@@ -209,11 +209,17 @@ StringArrayT<T>::setitem_string_vector_mask(const FixedArray<int> &mask, const S
             throw_error_already_set();
         }
             
+        // read all of the source before writing: data may be a masked
+        // reference of this array (a[m1] = a[m2])
+        std::vector<StringTableIndex> src;
+        src.reserve (count);
+        for (size_t i=0; i<count; ++i)
+            src.push_back (_table.intern(data._table.lookup(data[i])));
+
         size_t dataIndex = 0;
         for (size_t i=0; i<len; ++i) {
             if (mask[i]) {
-                StringTableIndex di = _table.intern(data._table.lookup(data[dataIndex]));
-                (*this)[i] = di;
+                (*this)[i] = src[dataIndex];
                 dataIndex += 1;
             }
         }
